@@ -474,6 +474,11 @@ def _gen_terms(run):
                  note="construction programs of depth <= 2 over 9 atoms (1 026 312 in all), every %d-th" % stride)
     run.rule += ("; plus construction programs enumerated by TLC from MC_Terms (depth <= 2 over 9 atoms, residue class "
                  "%d mod %d of 1 026 312)" % (run.seed % stride, stride))
+    run.rule += ("; plus the systematic families grown from the seeded-change rounds (DESIGN 12.6): semantically empty / "
+                 "universal terms and unions of two of them, subsumption, loops of loops, derivatives as operands, shared "
+                 "sub-terms, adjacent and tiling ranges, literal-like terms, complements in non-head positions and "
+                 "complemented heads with nullable tails, many derivative classes (9..40), different terms with the same "
+                 "language under every binary constructor")
     return ["--terms", path]
 
 
